@@ -7,12 +7,20 @@ from __future__ import annotations
 
 import importlib
 import json
+import os
 import sys
 import traceback
 
 
 def main(argv):
     pid, mode, inp, outp = argv
+    try:  # a runaway allocation must fail this shard, not the machine
+        import resource
+
+        lim = int(os.environ.get("VERIF_MEM_GB", "10")) << 30
+        resource.setrlimit(resource.RLIMIT_AS, (lim, lim))
+    except Exception:  # noqa: BLE001
+        pass
     from . import boot  # noqa: F401  (binds pyoak to $VERIF_REPO/src)
     from .core import detuple, dump
 
